@@ -170,11 +170,16 @@ def gen_inputs(ctx):
         # casefold / NFKC: KELVIN SIGN -> k, LONG S -> s, fullwidth and circled letters and digits, ...), in the lower-case
         # and in the all-upper-case spelling of the address: a one-character substitution, to be rejected
         for form in (s, s.upper()):
-            ps_ = range(len(form)) if not q else rng.sample(range(len(form)), 6)
-            for p in ps_:
-                for ch in LOOKALIKES.get(form[p], [])[:(8 if not q else 3)]:
+            sampled = set(range(len(form)) if not q else rng.sample(range(len(form)), 6))
+            for p in range(len(form)):
+                # relatives by CASE MAPPING alone (KELVIN SIGN, LONG S, DOTLESS I ...) at every position they apply to:
+                # they survive a decoder that merely lower-/upper-cases its input
+                rel = [c for c in LOOKALIKES.get(form[p], []) + LOOKALIKES.get(form[p].swapcase(), [])
+                       if form[p].lower() in (c.lower(), c.upper().lower(), c.casefold())]
+                rest = [c for c in LOOKALIKES.get(form[p], []) if c not in rel][:(8 if not q else 3)] if p in sampled else []
+                for ch in rel + rest:
                     out.append(("SegwitDec", {"hrp": T(hrp), "addr": T(form[:p] + ch + form[p + 1:]), "orig": T(form)},
-                                ("sub1-unicode-lookalike", p <= sep, form is not s)))
+                                ("sub1-unicode-lookalike", p <= sep, form is not s, ch in rel)))
         # 2, 3, 4 substitutions inside the data part (incl. version symbol and checksum)
         for w in (2, 3, 4):
             for _ in range((25 if q else 600)):
